@@ -123,6 +123,85 @@ void step1_then_unwrap_shared(Future<int>& f, SharedFuture<int>& inner, Future<i
     return inner;
   });
 }
+// ---- "regardless of callback signature": the capture size / kind of the callable is part of the signature space.
+// Fat captures (72 bytes: just above eight pointers; 1 KiB), a mutable lambda, a function pointer, a functor passed
+// as an lvalue: each step still allocates once (the callable lives inside the step's core).
+struct Fat72 {
+  char bytes[72];
+};
+struct Fat1K {
+  char bytes[1024];
+};
+struct CountingFunctor {
+  int calls = 0;
+  int operator()(int x) {
+    return x + ++calls;
+  }
+};
+int PlainFunction(int x);
+void step1_fat72_run_exec(IExecutor& e, Fat72& c, FutureOn<int>& out) {
+  out = Run(e, [c] {
+    return static_cast<int>(c.bytes[0]);
+  });
+}
+void step1_fat1k_run_inline(Fat1K& c, Future<int>& out) {
+  out = Run([c] {
+    return static_cast<int>(c.bytes[0]);
+  });
+}
+void step1_fat72_then_inline(Future<int>& f, Fat72& c, Future<int>& out) {
+  out = std::move(f).ThenInline([c](int x) {
+    return x + c.bytes[0];
+  });
+}
+void step1_fat1k_then_exec(Future<int>& f, IExecutor& e, Fat1K& c, FutureOn<int>& out) {
+  out = std::move(f).Then(e, [c](Result<int>&& r) {
+    return std::move(r).Ok() + c.bytes[0];
+  });
+}
+void step1_fat72_then_unwrap(Future<int>& f, Fat72& c, Future<int>& out) {
+  out = std::move(f).ThenInline([c](int x) {
+    return MakeFuture(x + c.bytes[0]);
+  });
+}
+void step1_fat72_detach_exec(Future<int>& f, IExecutor& e, Fat72& c) {
+  std::move(f).Detach(e, [c](int) {
+  });
+}
+void step1_fat72_schedule(IExecutor& e, Fat72& c, Task<int>& out) {
+  out = Schedule(e, [c] {
+    return static_cast<int>(c.bytes[0]);
+  });
+}
+void step1_fat72_async_contract(IExecutor& e, Fat72& c, FutureOn<int>& out) {
+  out = AsyncContract<int>(e, [c](Promise<int> p) {
+    std::move(p).Set(c.bytes[0]);
+  });
+}
+void step1_fat72_task_then(Task<int>& t, Fat72& c, Task<int>& out) {
+  out = std::move(t).ThenInline([c](int x) {
+    return x + c.bytes[0];
+  });
+}
+void step1_mutable_lambda_then(Future<int>& f, Future<int>& out) {
+  out = std::move(f).ThenInline([n = 0](int x) mutable {
+    return x + ++n;
+  });
+}
+void step1_function_pointer_then(Future<int>& f, Future<int>& out) {
+  out = std::move(f).ThenInline(&PlainFunction);
+}
+void step1_function_reference_then(Future<int>& f, Future<int>& out) {
+  out = std::move(f).ThenInline(PlainFunction);
+}
+void step1_lvalue_functor_then(Future<int>& f, CountingFunctor& fn, Future<int>& out) {
+  out = std::move(f).ThenInline(fn);
+}
+void step1_fat72_shared_then(SharedFuture<int>& f, Fat72& c, Future<int>& out) {
+  out = f.ThenInline([c](int x) {
+    return x + c.bytes[0];
+  });
+}
 void step1_detach_inline(Future<int>& f) {
   std::move(f).DetachInline([](int) {
   });
